@@ -14,11 +14,12 @@ CFG = {
                   "(C01's statement, used here as an assumption); txscript as signature oracle.",
     "lean_props": ["BtcwVerif.Props.C06"],
     "engines": ["walletchain-tx"],
+    "extractors": [{"name": "createtx-sites", "out": "CreateTxSitesGen.lean"}],
     "trusted_base": COMMON_TB + [
         "hand-written model BtcwVerif/Model/CoinSelect.lean of wallet/createtx.go + txauthor.NewUnsignedTransaction + txsizes/txrules arithmetic (tied by differential run)",
         "the view handed to the model is derived from the history the harness fed to the wallet (ledger in lean/Driver/EngWalletTx.lean), i.e. wtxmgr is assumed to report ledger truth (C01)",
         "btcd txscript engine with StandardVerifyFlags as the oracle for signature validity; secp256k1/schnorr not modelled",
-        "the createTxRequests channel is taken for what it provides (one txToOutputs at a time)",
+        "the createTxRequests channel is taken for what it provides (one txToOutputs at a time); its structure (single sender CreateSimpleTx, single receiver = single txToOutputs caller txCreator, spawned once by Start, no nested go/closure) is re-extracted from wallet/*.go on every run (harness/cmd/vxextract/createtxsites.go, syntactic) and checked by C06_generated_serialised",
     ],
     "assumptions": [
         "amounts/heights are unbounded Int in the model (no int64/int32 overflow; generator stays far below)",
